@@ -192,7 +192,7 @@ var forkSkips = map[string]string{
 // The sibling comparison of a property is restricted to them, so that a deviation elsewhere alarms only the property it concerns.
 var propFuncs = map[string][]string{
 	"C08": {`^\(\*http2\.pipe\)`, `^\(\*http2\.dataBuffer\)`, `^http2\.(getDataBufferChunk|putDataBufferChunk)$`, `^\(\*http2\.writeData\)`, `^\(\*http2\.writeResHeaders\)`, `^http2\.(encodeHeaders|encKV|splitHeaderBlock|writeEndsStream)`,
-		`^\(\*http2\.responseWriter(State)?\)`, `^\(\*http2\.requestBody\)`, `^\(\*http2\.serverConn\)\.(writeDataFromHandler|writeFrameFromHandler|writeHeaders|write100ContinueHeaders|newWriterAndRequest|newWriterAndRequestNoBody|newResponseWriter|processData|writeFrameAsync|wroteFrame|runHandler|writeFrame|scheduleFrameWrite|startFrameWrite|resetStream|closeStream|handlerDone)$`,
+		`^\(\*http2\.responseWriter(State)?\)`, `^\(\*http2\.requestBody\)`, `^\(\*http2\.serverConn\)\.(writeDataFromHandler|writeFrameFromHandler|writeHeaders|write100ContinueHeaders|newWriterAndRequest|newWriterAndRequestNoBody|newResponseWriter|processData|writeFrameAsync|wroteFrame|runHandler|writeFrame|scheduleFrameWrite|startFrameWrite|resetStream|closeStream|handlerDone|processSettings|processSetting|processSettingInitialWindowSize|processWindowUpdate)$`, `^\\(\\*http2\\.outflow\\)`,
 		`^\(\*http2\.stream\)\.(endStream|copyTrailersToHandlerRequest|processTrailerHeaders)$`, `^http2\.(checkWriteHeaderCode|cloneHeader|foreachHeaderElement)$`, `^\(\*http2\.writeQueue\)`, `^\(http2\.FrameWriteRequest\)\.Consume$`},
 	"C10": {`^http2\.(parse|read)`, `^\(\*http2\.Framer\)\.(ReadFrame|readMetaFrame|checkFrameOrder|maxHeaderStringLen|maxHeaderListSize)`, `^\(\*http2\.serverConn\)\.(readFrames|writeFrameAsync|serve|notePanic|runHandler|sendServeMsg|readPreface|processFrameFromReader|setConnState|onSettingsTimer|onIdleTimer|onReadIdleTimer|onShutdownTimer|handlePingTimer)$`,
 		`^\(\*http2\.Server\)\.(ServeConn|serveConn)$`, `^\(\*http2\.stream\)\.(onReadTimeout|onWriteTimeout)$`, `\)\.(writeFrame|staysWithinBuffer|writeHeaderBlock)$`, `^\(\*http2\.(SettingsFrame|MetaHeadersFrame|HeadersFrame|DataFrame|FrameHeader)\)`, `^http2\.(splitHeaderBlock|terminalReadFrameError|isClosedConnError)`},
